@@ -134,3 +134,9 @@ Theorem strict_success_means_known m pars m' : pars_update m pars false = ROk m'
 Proof.
   intros H k Hk C. rewrite unknown_key_rejected in H by (exists k; tauto). discriminate.
 Qed.
+
+(* a bare time parameter is replaced by ANY time parameter: the duration-versus-rate test that guards distribution-valued parameters (duration_guard)
+   has no counterpart in _update_timepar, so a duration is accepted where a rate is in place and vice versa (listed finding wrong-kind-of-timepar-accepted) *)
+Lemma timepar_kind_mismatch_accepted od nd ob nb ov nv' : od <> nd ->
+  update_timepar (mkSV (NVTimePar od ob ov) Orig) (NVTimePar nd nb nv') = OSet (mkSV (NVTimePar nd nb nv') Orig).
+Proof. intros _. destruct (timepar_accepts (mkSV (NVTimePar od ob ov) Orig) 0%Z [] nd nb nv' 0) as [_ [_ [H _]]]. exact H. Qed.
